@@ -45,6 +45,10 @@ class Adapter:
         c = self.cfg
         with contextlib.redirect_stdout(io.StringIO()):
             budget = self.met.ATP_Store(budget=10 ** 6, silent=True)
+            if c.get("store") == "starving":          # the shared store in survival mode: it refuses the agents' charges; the verdicts still decide
+                budget.consume(9 * 10 ** 5 + 1, "drain", priority=10)
+            elif c.get("store") == "dormant":
+                budget.enter_dormancy()
             loop = self.loops.CoherentFeedForwardLoop(budget=budget, gate_logic=self.logic, enable_circuit_breaker=c["breaker"],
                                                       failure_threshold=c["threshold"], recovery_timeout_seconds=c["T"] * self.unit,
                                                       enable_cache=c["cache"], cache_ttl_seconds=10 ** 7, silent=True)
